@@ -11,7 +11,7 @@ Print Assumptions C16_payload_describes.
 
 Example C16_payload_describes_satisfiable :
   exists pl, prepare (mkpf (Some 6) (Some 1) (Some 4) (Some 1) true false false)
-     (mkproc (mkcirc 7 4 [0; 1; 2; 3]) [] [] [(3, 1)] (Some [1; 0; 0; 1]) (Some [([0], (0, 1))]) (Some [(0, 500%Z)]) (Some 0)) 0
+     (mkproc (mkcirc 7 4 [0; 1; 2; 3] []) [] [] [(3, 1)] (Some [1; 0; 0; 1]) (Some [([0], (0, 1))]) (Some [(0, 500%Z)]) (Some 0)) 0
      = Ok pl /\ lookup KHeralds pl = Some (VHer [(3, 1)]) /\ lookup KParams pl = Some (VParams (Some 0)).
 Proof. eexists. vm_compute. repeat split. Qed.
 
@@ -103,6 +103,29 @@ Theorem C16_one_request_per_execution : forall tr s,
 Proof. exact run_counts. Qed.
 Print Assumptions C16_one_request_per_execution.
 
+(* one execution, whatever the server does with the request (accepts it, refuses it, or registers it and the answer is
+   lost on the way back): at most one request reaches the server, at most one remote job exists afterwards *)
+Theorem C16_one_execution_at_most_one_job : forall s k args kw answer,
+  let s' := fst (step s (EExec k args kw answer)) in
+  length (s_net s') <= S (length (s_net s)) /\ s_created s' <= S (s_created s) /\
+  (s_created s' = S (s_created s) -> length (s_net s') = S (length (s_net s))).
+Proof. exact exec_at_most_one. Qed.
+Print Assumptions C16_one_execution_at_most_one_job.
+
+(* the circuit of a request is the processor's circuit WITH its parameter values at job creation: a value set between
+   two jobs is in the second job's request *)
+Theorem C16_job_circuit_is_current : forall pf p shots its gen m j, create_job pf p shots its gen m = Ok j ->
+  v_circ (describe (j_pl j)) = Some (p_circ p).
+Proof. exact job_circuit_is_current. Qed.
+Print Assumptions C16_job_circuit_is_current.
+
+Theorem C16_job_after_set_value : forall pf p n v p' shots its gen m j,
+  apply_op p (OParam n v) = Ok p' -> create_job pf p' shots its gen m = Ok j ->
+  exists c, v_circ (describe (j_pl j)) = Some c /\ c_id c = c_id (p_circ p) /\ c_lab c = c_lab (p_circ p) /\
+    c_vals c = vput n v (c_vals (p_circ p)).
+Proof. exact job_after_set_value. Qed.
+Print Assumptions C16_job_after_set_value.
+
 (* every request received by the server, after any history that starts from a fresh Sampler: it describes the
    processor one of the created jobs was built from, respects the platform constraints, max_samples <= max_shots *)
 Theorem C16_every_request_describes_and_respects : forall pf p shots s0 tr,
@@ -116,10 +139,10 @@ Print Assumptions C16_every_request_describes_and_respects.
 
 Example C16_session_satisfiable :
   let pf := mkpf (Some 6) None (Some 4) None true false false in
-  let p := mkproc (mkcirc 7 3 [0; 1; 2]) [] [] [] (Some [1; 1; 0]) None None (Some 2) in
+  let p := mkproc (mkcirc 7 3 [0; 1; 2] []) [] [] [] (Some [1; 1; 0]) None None (Some 2) in
   exists s0, init_sess pf p (Some 100%Z) = Ok s0 /\
-    snd (run s0 [EJob MSampleCount; EExec 0 [Some 500%Z] [] true]) = [ODone; OSent] /\
-    length (s_net (fst (run s0 [EJob MSampleCount; EExec 0 [Some 500%Z] [] true]))) = 1.
+    snd (run s0 [EJob MSampleCount; EExec 0 [Some 500%Z] [] 1]) = [ODone; OSent] /\
+    length (s_net (fst (run s0 [EJob MSampleCount; EExec 0 [Some 500%Z] [] 1]))) = 1.
 Proof. eexists. split; [reflexivity|]. vm_compute. split; reflexivity. Qed.
 
 (* conversion of a local processor *)
@@ -153,8 +176,8 @@ Proof. exact from_local_preserves. Qed.
 Print Assumptions C16_from_local_preserves.
 
 Example C16_from_local_preserves_satisfiable :
-  from_local (mkproc (mkcirc 0 4 [0; 1; 2; 3]) [] [] [(1, 1); (3, 0)] (Some [1; 1; 0; 0]) None None (Some 1))
-  = Ok (mkproc (mkcirc 0 4 [0; 2; 1; 3]) [] [] [(2, 1); (3, 0)] (Some [1; 0; 1; 0]) None (Some []) (Some 1)).
+  from_local (mkproc (mkcirc 0 4 [0; 1; 2; 3] []) [] [] [(1, 1); (3, 0)] (Some [1; 1; 0; 0]) None None (Some 1))
+  = Ok (mkproc (mkcirc 0 4 [0; 2; 1; 3] []) [] [] [(2, 1); (3, 0)] (Some [1; 0; 1; 0]) None (Some []) (Some 1)).
 Proof. vm_compute. reflexivity. Qed.
 
 (* historical: the code before that repair refused every processor that had a herald and an input ... *)
@@ -181,6 +204,6 @@ Proof. exact with_input_full. Qed.
 Print Assumptions C16_input_includes_herald_photons.
 
 Example C16_input_includes_herald_photons_satisfiable :
-  apply_op (mkproc (mkcirc 0 4 [0; 1; 2; 3]) [] [] [(1, 1); (0, 0)] None None None None) (OInput [1; 0])
-  = Ok (mkproc (mkcirc 0 4 [0; 1; 2; 3]) [] [] [(1, 1); (0, 0)] (Some [0; 1; 1; 0]) None None None).
+  apply_op (mkproc (mkcirc 0 4 [0; 1; 2; 3] []) [] [] [(1, 1); (0, 0)] None None None None) (OInput [1; 0])
+  = Ok (mkproc (mkcirc 0 4 [0; 1; 2; 3] []) [] [] [(1, 1); (0, 0)] (Some [0; 1; 1; 0]) None None None).
 Proof. reflexivity. Qed.
